@@ -143,8 +143,10 @@ nothing.  `views[i]` is endpoint `i`; `os[i]` what it does with this request. -/
 def acceptedBy (r : CallResult) (os : List Outcome) : Option Nat :=
   r.contacted.find? (fun i => os[i]? == some Outcome.accept)
 
-def bumpNonce (views : List EndpointView) (i : Nat) : List EndpointView :=
-  (List.range views.length).zipWith (fun j v => if j == i then { v with pendingNonce := v.pendingNonce + 1 } else v) views
+def bumpNonce : List EndpointView → Nat → List EndpointView
+  | [], _ => []
+  | v :: vs, 0 => { v with pendingNonce := v.pendingNonce + 1 } :: vs
+  | v :: vs, i + 1 => v :: bumpNonce vs i
 
 /-- a sequence of calls on one adaptor (fixed configuration): per call the envelopes of the transactions
 signed, one per contacted endpoint, and the endpoints' views afterwards -/
@@ -158,6 +160,23 @@ def sendSeq (cfg : Config) : List Nat → List EndpointView → List (Method × 
       | some i => bumpNonce views i
       | none => views
     (r, txs) :: sendSeq cfg dead' views' rest
+
+/-- the nonces of the transactions endpoint `i` ACCEPTED during a history, in order (each is the nonce of the
+transaction `sendSeq` lists for `i` in that call) -/
+def acceptedNonces (cfg : Config) : List Nat → List EndpointView → List (Method × List Outcome) → Nat → List Nat
+  | _, _, [], _ => []
+  | dead, views, (m, os) :: rest, i =>
+    let r := call true dead os
+    let acc := acceptedBy r.1 os
+    let views' := match acc with
+      | some j => bumpNonce views j
+      | none => views
+    let tail := acceptedNonces cfg r.2 views' rest i
+    if acc = some i then
+      match views[i]? with
+      | some v => (envelope m cfg v).nonce :: tail
+      | none => tail
+    else tail
 
 /-! ### driver helpers -/
 
